@@ -213,3 +213,182 @@ pub fn run(ctx: &Ctx, idx: u64, only: Option<(usize, usize)>, out: &mut RunOut) 
         _ => go!(sponge_kb5q, crate::uni::Kb5q, "U-KB5Q"),
     }
 }
+
+macro_rules! merkle_enable {
+    (p2, $b:ident) => {
+        $b.enable_poseidon2_perm::<p3_poseidon2_circuit_air::KoalaBearD4Width16, _>(
+            p3_circuit::ops::generate_poseidon2_trace::<EF, p3_poseidon2_circuit_air::KoalaBearD4Width16>,
+            p3_koala_bear::default_koalabear_poseidon2_16(),
+        );
+    };
+    (p1, $b:ident) => {
+        $b.enable_poseidon1_perm::<p3_circuit::ops::poseidon1_perm::KoalaBearD4Width16, _>(
+            p3_circuit::ops::generate_poseidon1_trace::<EF, p3_circuit::ops::poseidon1_perm::KoalaBearD4Width16>,
+            p3_koala_bear::default_koalabear_poseidon1_16(),
+        );
+    };
+}
+
+/// A raw arity-2 Merkle path of `bits.len()` permutation rows (leaf and first sibling constants,
+/// later siblings private data, direction bits constants), root tagged and optionally connected to
+/// two public inputs; run with the free-state fault `(hook call, limb, delta)`.
+macro_rules! merkle_free {
+    ($fname:ident, $flavor:ident, $pcfg:expr) => {
+        #[allow(clippy::type_complexity)]
+        fn $fname(
+            words: &[Vec<u64>],
+            bits: &[bool],
+            root: Option<&[Vec<u64>]>,
+            fault: Option<(usize, usize, u64)>,
+        ) -> Result<(p3_circuit::Circuit<p3_test_utils::koala_bear_params::Challenge>, p3_circuit::tables::Traces<p3_test_utils::koala_bear_params::Challenge>, Vec<Vec<u64>>, bool), String> {
+            use p3_circuit::ops::{PermCall, PermConfig, generate_recompose_trace, perm_private_data};
+            use p3_field::PrimeCharacteristicRing;
+            use p3_test_utils::koala_bear_params::{Challenge, F};
+            type EF = Challenge;
+            let r = observe(|| -> Result<_, String> {
+                let cfg: PermConfig = $pcfg.into();
+                let mut b = p3_circuit::CircuitBuilder::<EF>::new();
+                merkle_enable!($flavor, b);
+                b.enable_recompose::<F>(generate_recompose_trace::<F, EF>);
+                let val = |i: usize| crate::gprog::f_from_u64s::<F, EF>(&words[i]);
+                let mut private = Vec::new();
+                let mut last = Vec::new();
+                for (r, &bit) in bits.iter().enumerate() {
+                    let bit_expr = b.alloc_const(EF::from(F::from_bool(bit)), "mmcs_bit");
+                    let inputs = if r == 0 {
+                        vec![Some(b.alloc_const(val(0), "l0")), Some(b.alloc_const(val(1), "l1")), Some(b.alloc_const(val(2), "s0")), Some(b.alloc_const(val(3), "s1"))]
+                    } else {
+                        vec![None; 4]
+                    };
+                    let is_last = r + 1 == bits.len();
+                    let (op_id, outs) = b
+                        .add_perm(cfg, &PermCall { new_start: r == 0, merkle_path: true, mmcs_bit: Some(bit_expr), mmcs_bit2: None, inputs, out_ctl: vec![is_last, is_last], return_all_outputs: false, mmcs_index_sum: None })
+                        .map_err(|e| format!("{e:?}"))?;
+                    if r > 0 {
+                        private.push((op_id, vec![val(2 + 2 * r), val(3 + 2 * r)]));
+                    }
+                    last = outs;
+                }
+                let outs: Vec<_> = last.iter().take(2).map(|o| o.ok_or("missing root output".to_string())).collect::<Result<_, _>>()?;
+                for (i, o) in outs.iter().enumerate() {
+                    b.tag(*o, format!("d{i}")).map_err(|e| format!("{e:?}"))?;
+                }
+                let mut pubs: Vec<EF> = Vec::new();
+                if let Some(rt) = root {
+                    for (o, v) in outs.iter().zip(rt.iter()) {
+                        let e = b.public_input();
+                        b.connect(*o, e);
+                        pubs.push(crate::gprog::f_from_u64s::<F, EF>(v));
+                    }
+                } else {
+                    // keep one public input so that the Public table is not empty
+                    let e = b.public_input();
+                    let _ = b.add(e, outs[0]);
+                    pubs.push(EF::ONE);
+                }
+                let circuit = b.build().map_err(|e| format!("{e:?}"))?;
+                let fired = Arc::new(AtomicUsize::new(0));
+                let traces = {
+                    let mut r = circuit.runner();
+                    if let Some((call, limb, delta)) = fault {
+                        let cnt = AtomicUsize::new(0);
+                        let f2 = fired.clone();
+                        r.set_verif_free_state_tamper(Box::new(move |_op, st: &mut [EF]| {
+                            if cnt.fetch_add(1, Ordering::SeqCst) == call {
+                                if let Some(x) = st.get_mut(limb) {
+                                    *x += EF::from(F::from_u64(delta));
+                                    f2.fetch_add(1, Ordering::SeqCst);
+                                }
+                            }
+                        }));
+                    }
+                    r.set_public_inputs(&pubs).map_err(|e| format!("{e:?}"))?;
+                    for (op_id, sib) in &private {
+                        r.set_private_data(*op_id, perm_private_data(cfg, sib.clone())).map_err(|e| format!("{e:?}"))?;
+                    }
+                    r.run().map_err(|e| format!("{e:?}"))?
+                };
+                let dg: Vec<Vec<u64>> = (0..2).map(|i| traces.probe(&format!("d{i}")).map(|v| crate::gprog::f_to_u64s::<F, EF>(v)).unwrap_or_default()).collect();
+                Ok((circuit, traces, dg, fired.load(Ordering::SeqCst) > 0))
+            });
+            match r {
+                Ok(x) => x,
+                Err(p) => Err(format!("panic: {p}")),
+            }
+        }
+    };
+}
+merkle_free!(merkle_p2, p2, p3_circuit::ops::Poseidon2Config::KOALA_BEAR_D4_W16);
+merkle_free!(merkle_p1, p1, p3_circuit::ops::Poseidon1Config::KOALA_BEAR_D4_W16);
+
+/// Merkle sub-arm: every (row, limb) free-state fault on a raw arity-2 path, over the Poseidon2
+/// and the Poseidon1 table.
+pub fn run_merkle(ctx: &Ctx, idx: u64, only: Option<(usize, usize)>, out: &mut RunOut) {
+    let mut rng = Rng::new(ctx.seed, "C04-merkle-free", idx);
+    foldhash::sim::set_seed(mix(mix(ctx.seed, idx), 0x6d6b));
+    let p1 = idx / 4 % 2 == 1;
+    let order: u64 = 0x7f000001;
+    let depth = rng.range(1, 5);
+    let bits: Vec<bool> = (0..depth).map(|r| r > 0 && rng.chance(1, 2)).collect();
+    let words: Vec<Vec<u64>> = (0..2 + 2 * depth).map(|_| (0..4).map(|_| rng.below(order)).collect()).collect();
+    let delta = 1 + rng.below(order - 1);
+    let cfg = ProverCfg { npo: BuilderOpts { poseidon: true, recompose: true }, poseidon1: p1, ..ProverCfg::default() };
+    let uname = if p1 { "p1" } else { "p2" };
+    let call_it = |root: Option<&[Vec<u64>]>, fault: Option<(usize, usize, u64)>| if p1 { merkle_p1(&words, &bits, root, fault) } else { merkle_p2(&words, &bits, root, fault) };
+    let Ok((_, _, honest_root, _)) = call_it(None, None) else {
+        out.count("merkle_free_honest_build_failed");
+        return;
+    };
+    let prove = |root: &[Vec<u64>], fault: Option<(usize, usize, u64)>| -> Result<(), String> {
+        let (c, t, _, _) = call_it(Some(root), fault)?;
+        let (keys, info) = pipe::keygen::<crate::uni::Kb4>(&c, &cfg).map_err(|f| f.msg)?;
+        let proof = pipe::prove::<crate::uni::Kb4>(&keys, &t, &cfg, None).map_err(|f| f.msg)?;
+        pipe::verify::<crate::uni::Kb4>(&proof, &cfg, &info.commitment).map_err(|f| f.msg)
+    };
+    out.evals += 1;
+    if let Err(e) = prove(&honest_root, None) {
+        out.violate(
+            format!("merkle_free_honest_rejected:{uname}"),
+            format!("honest raw Merkle path of depth {depth} ({uname}) does not prove and verify: {}", e.chars().take(200).collect::<String>()),
+            json!({"sponge": true, "merkle": true, "idx": idx, "universe": uname}),
+        );
+        return;
+    }
+    out.count("merkle_free_control_accepted");
+    for call in 0..depth {
+        for limb in 0..4usize {
+            if let Some((c, l)) = only {
+                if c != call || l != limb {
+                    continue;
+                }
+            }
+            let fault = Some((call, limb, delta));
+            let Ok((_, _, forged_root, fired)) = call_it(None, fault) else {
+                out.count("merkle_free_fault_run_failed");
+                continue;
+            };
+            if !fired {
+                out.count("merkle_free_fault_not_fired");
+                continue;
+            }
+            if forged_root == honest_root {
+                out.count("merkle_free_fault_overwritten_by_witness");
+                continue;
+            }
+            let accepted = prove(&forged_root, fault);
+            out.evals += 1;
+            out.steps += 1;
+            let class = format!("{uname}:{}:limb{limb}", if call == 0 { "chain_start" } else { "continuation" });
+            out.count(&format!("merkle_free_fired_{}", class.replace(':', "_")));
+            out.distinct.insert(crate::core::prng::fnv64(format!("merkle_free:{class}").as_bytes()));
+            match accepted {
+                Ok(()) => out.violate(
+                    format!("merkle_free_state:{class}"),
+                    format!("raw arity-2 Merkle path of depth {depth} ({uname} table): limb {limb} of the input state of path row {call}, which is inherited from the previous row, was changed by the witness generator; the re-executed trace and the root it yields (not the root of the leaf and siblings) were proven and ACCEPTED"),
+                    json!({"sponge": true, "merkle": true, "idx": idx, "universe": uname, "call": call, "limb": limb}),
+                ),
+                Err(_) => out.count("merkle_free_forged_rejected"),
+            }
+        }
+    }
+}
